@@ -47,6 +47,11 @@ def _cmp_multi_index(a, b):
         else:
             # Both are Index, no decision, do not depend on count!
             pass
+    # A multiindex that is a prefix of the other one sorts first
+    x, y = len(a._indices), len(b._indices)
+    if x != y:
+        return -1 if x < y else 1
+
     # Failed to make a decision, return 0 by default
     # (this does not mean equality, it could be e.g.
     # [i,0] vs [j,0] because the counts of i,j cannot be used)
